@@ -386,6 +386,9 @@ def cell_term(d):
     return "(Some (Node (%d)%%Z [%s]))" % (-d["pt"], "; ".join(cell_term(c) for c in d["oct"]))
 
 
+TREE_LOST = []
+
+
 def tree_cases(rng, rebound, k, nmax):
     """REB_GRAVITY_TREE on random systems: accelerations + every cell's (m,mx,my,mz) read by walking the library's tree
     through ctypes, vs C02.TreeModel / C15.Tree.gdata on the dumped tree SHAPE (Leaf/Node/oct order only)."""
@@ -435,6 +438,12 @@ def tree_cases(rng, rebound, k, nmax):
             continue
         clib.reb_simulation_update_tree(ctypes.byref(sim))
         clib.reb_simulation_update_tree_gravity_data(ctypes.byref(sim))
+        if sim.N != n:
+            # reb_simulation_update_tree dropped a particle altogether (same defect class as an index missing from the leaves)
+            TREE_LOST.append({"routine": "tree", "N": n, "N_after_update_tree": sim.N, "root_size": root, "layout": layout, "boundary": bnd,
+                              "ms": [float(m).hex() for m in ms], "pos": [[float(v).hex() for v in q] for q in P]})
+            del sim
+            continue
         clib.reb_simulation_update_acceleration(ctypes.byref(sim))
         ps = sim.particles
         exp = []
@@ -1213,8 +1222,16 @@ def run(ctx):
             tcost[len(items)] = 5 + lab[1] ** 2 * (2 * lab[3][0] + 1) * (2 * lab[3][1] + 1) * (2 * lab[3][2] + 1) * max(1, lab[5])
             items.append((term, exp))
             ctx.case(key=lab[:5], nontrivial=lab[1] >= 2)
-        notonce = [lab[:5] for lab in labels.values() if lab[0] == "tree" and not lab[6]]
-        ctx.obligation("hypothesis:every particle index occurs exactly once among the leaves of every dumped forest", not notonce, str(notonce[:5]))
+        notonce = sorted((i for i, lab in labels.items() if lab[0] == "tree" and not lab[6]), key=lambda i: labels[i][1])
+        if TREE_LOST and not notonce:
+            ctx.violation("tree:particle_lost_on_update", TREE_LOST[0], True,
+                          "reb_simulation_update_tree removed a particle that had not moved (N %d -> %d)" % (TREE_LOST[0]["N"], TREE_LOST[0]["N_after_update_tree"]))
+        if notonce:
+            # hypothesis of C02_tree_theta0_eq_spec fails on the library's own tree: a particle is in particles[] but in no leaf,
+            # so the tree force misses it (the tree bookkeeping itself is C15's subject; the force consequence is C02's)
+            ctx.violation("tree:particle_lost_on_update", replays[notonce[0]], True,
+                          "after reb_simulation_update_tree a particle index is missing from the leaves of the tree (cases %s): "
+                          "REB_GRAVITY_TREE then ignores that particle" % [labels[i][:5] for i in notonce[:4]])
     # chunks balanced by cost ~ N^2 * boxes
     def cost(i):
         if i in tcost:
